@@ -8,7 +8,7 @@
 //! the known optimum.  Progress (f64) is logged as the unique fraction num/den (den <= MAXDEN)
 //! whose correctly rounded quotient is bit-identical to it; NaN = 0/0, +inf = 1/0.
 use mahf::{
-    components::Loop,
+    components::{Block, Loop, Scope},
     conditions::{
         common::{DeltaEqChecker, PartialEqChecker},
         And, ChangeOf, EveryN, LessThanN, Not, OptimumReached, Or, RandomChance,
@@ -21,7 +21,9 @@ use rand::Rng;
 use serde_json::{json, Value};
 
 use crate::{
-    problems_cond::{CondProblem, CountBody, CountTests, EvalLog, FVal, LoopLog, Scripted, St},
+    problems_cond::{
+        CondProblem, CountBody, CountTests, EvalLog, FVal, LoopLog, NestLog, NestTests, Probe, Scripted, SetIter, St,
+    },
     util::{caught, read_ndjson, rng, Args, Out},
 };
 
@@ -171,7 +173,31 @@ fn build(fm: &Value, id: i64) -> Cond {
 // ------------------------------------------------------------------ executing one call
 
 fn r(k: &str, b: i64, log: Vec<i64>, p: i64, t: i64) -> Value {
-    json!({"k": k, "b": b, "log": log, "p": p, "t": t})
+    json!({"k": k, "b": b, "log": log, "p": p, "t": t, "ev": []})
+}
+
+/// Observations a nested program may make before it is cut off as "runaway".
+const NEST_FUEL: i64 = 1500;
+
+/// Real component tree of a `nest` program; node ids by position as for formulas.  A scope is
+/// framed by two probes standing in the enclosing scope.
+fn build_prog(node: &Value, id: i64) -> Box<dyn Component<CondProblem>> {
+    let kids = || -> Vec<Box<dyn Component<CondProblem>>> {
+        node["c"].as_array().unwrap().iter().enumerate().map(|(i, c)| build_prog(c, 10 * id + i as i64 + 1)).collect()
+    };
+    let n = node["n"].as_i64().unwrap();
+    match node["k"].as_str().unwrap() {
+        "block" => Block::new(kids()),
+        "tick" => Box::new(Probe { id, kind: "tick" }),
+        "set" => Box::new(SetIter { v: n as u32 }),
+        "loop" => Loop::new(Box::new(NestTests { id, inner: LessThanN::iterations(n as u32) }), kids()),
+        "scope" => Block::new(vec![
+            Box::new(Probe { id, kind: "in" }) as Box<dyn Component<CondProblem>>,
+            Scope::new(kids()),
+            Box::new(Probe { id, kind: "out" }),
+        ]),
+        other => panic!("unknown program node {other}"),
+    }
 }
 
 fn rk(k: &str) -> Value {
@@ -328,6 +354,33 @@ pub fn exec(st: &mut St, a: &Value) -> Value {
                 Err(_) => r("err", NOVAL, seen, passes, tests),
             }
         }
+        "nest" => {
+            // the program is run as a configuration run does: init, require, execute
+            let prog = build_prog(&a["pg"], 1);
+            st.insert(NestLog { ev: vec![], fuel: NEST_FUEL });
+            let out = (|| {
+                prog.init(&p0, st)?;
+                prog.require(&p0, &st.requirements())?;
+                prog.execute(&p0, st)
+            })();
+            let ev: Vec<Value> = match st.try_borrow::<NestLog>() {
+                Ok(log) => log
+                    .ev
+                    .iter()
+                    .map(|(id, kind, it, pr)| {
+                        let f = fr(*pr);
+                        json!({"id": id, "k": kind, "v": it, "num": f["num"], "den": f["den"]})
+                    })
+                    .collect(),
+                Err(_) => vec![],
+            };
+            let k = match out {
+                Ok(()) => "ok",
+                Err(e) if e.to_string().contains("runaway") => "runaway",
+                Err(_) => "err",
+            };
+            json!({"k": k, "b": NOVAL, "log": [], "p": NOVAL, "t": NOVAL, "ev": ev})
+        }
         other => panic!("unknown op {other}"),
     }
 }
@@ -341,12 +394,56 @@ fn exec_caught(st: &mut St, a: &Value) -> Value {
 
 // ------------------------------------------------------------------ runs
 
+fn pnode(k: &str, n: i64, c: Vec<Value>) -> Value {
+    json!({"k": k, "n": n, "c": c})
+}
+
+fn nest_act(body: Vec<Value>) -> Value {
+    let mut a = act("nest", "iter", NOVAL, NOVAL, "init", NOVAL, NOVAL, NOVAL);
+    a["pg"] = pnode("block", 0, body);
+    a
+}
+
+/// Random forest of loops / scopes / ticks / sets.  `in_loop`: a loop around shares the scope
+/// (no `set` there: it could keep that loop running forever).  `weight` = product of the
+/// (bound + 1) of the loops around, `budget` bounds the observations the program will make.
+fn random_prog(g: &mut impl Rng, depth: u32, in_loop: bool, weight: i64, budget: &mut i64, well: bool) -> Vec<Value> {
+    let mut out = Vec::new();
+    let mut level_loop = in_loop;
+    for _ in 0..g.gen_range(0..=3) {
+        if *budget < 2 * weight {
+            break;
+        }
+        let pick = g.gen_range(0..100);
+        if depth == 0 || pick < 30 {
+            *budget -= weight;
+            out.push(pnode("tick", 0, vec![]));
+        } else if pick < 38 && !in_loop && !well {
+            out.push(pnode("set", g.gen_range(0..=4), vec![]));
+        } else if pick < 70 {
+            *budget -= 2 * weight;
+            out.push(pnode("scope", 0, random_prog(g, depth - 1, false, weight, budget, well)));
+        } else if !(well && level_loop) {
+            // in a well-scoped program a scope hosts one loop at most
+            let n = g.gen_range(0..=3);
+            let w = weight * (n + 1);
+            if *budget < 2 * w {
+                continue;
+            }
+            *budget -= w;
+            level_loop = true;
+            out.push(pnode("loop", n, random_prog(g, depth - 1, true, w, budget, well)));
+        }
+    }
+    out
+}
+
 fn leaf(o: &str) -> Value {
     json!({"k": "leaf", "o": o, "c": []})
 }
 
 fn act(op: &str, l: &str, n: i64, d: i64, f: &str, x: i64, y: i64, z: i64) -> Value {
-    json!({"op": op, "l": l, "n": n, "d": d, "f": f, "x": x, "y": y, "z": z, "fm": leaf("-")})
+    json!({"op": op, "l": l, "n": n, "d": d, "f": f, "x": x, "y": y, "z": z, "fm": leaf("-"), "pg": pnode("none", 0, vec![])})
 }
 
 /// A fresh state as a configuration run would prepare it: random generator, and `init` of
@@ -427,7 +524,14 @@ fn random_step(run: &mut Run, g: &mut impl Rng, big: bool) {
             g.gen_range(0..=nmax)
         }
     }
-    match g.gen_range(0..100) {
+    match g.gen_range(0..107) {
+        100..=106 => {
+            // nested loops and scopes; two thirds of the programs well-scoped (every loop on its own counter)
+            let mut budget = 400;
+            let well = g.gen_range(0..3) > 0;
+            let body = random_prog(g, 4, false, 1, &mut budget, well);
+            run.call(nest_act(body));
+        }
         0..=21 => {
             let l = LENSES[g.gen_range(0..4)];
             let cur = run.seen(l).max(0);
@@ -545,6 +649,24 @@ fn grid_run(run: &mut Run, ns: &[i64]) {
     }
 }
 
+/// Systematic nested loops: an outer loop over n whose body holds a scoped inner loop over m
+/// (probes before, inside and after), three loops deep, two scoped loops side by side, and the
+/// shape of the iterated-local-search template (loop { scope { loop { scope { loop } } } }).
+fn nest_grid(run: &mut Run, ns: &[i64]) {
+    let tick = || pnode("tick", 0, vec![]);
+    for &n in ns {
+        for &m in ns {
+            let inner = pnode("scope", 0, vec![pnode("loop", m, vec![tick()])]);
+            run.call(nest_act(vec![pnode("loop", n, vec![tick(), inner.clone(), tick()])]));
+            run.call(nest_act(vec![tick(), pnode("loop", n, vec![inner.clone(), inner.clone()]), tick()]));
+            let deep = pnode("scope", 0, vec![pnode("loop", m, vec![tick(), pnode("scope", 0, vec![pnode("loop", n, vec![tick()])])])]);
+            run.call(nest_act(vec![pnode("loop", n, vec![deep, tick()])]));
+            // a scope without a loop of its own sees the loop around it
+            run.call(nest_act(vec![pnode("loop", n, vec![pnode("scope", 0, vec![tick(), pnode("scope", 0, vec![pnode("loop", m, vec![])]), tick()])])]));
+        }
+    }
+}
+
 fn selftest() -> usize {
     fn gcd(a: i64, b: i64) -> i64 {
         if b == 0 { a } else { gcd(b, a % b) }
@@ -609,6 +731,7 @@ pub fn main(args: &Args) -> usize {
             }
             let mut run = Run::start(&mut out, runs + freq, seed);
             grid_run(&mut run, &[0, 1, 2, 3, 4, 5, 7, 10, 16, 100, 257, 1000, 4097, 9999, 10_000]);
+            nest_grid(&mut run, &[0, 1, 2, 3, 5]);
         }
         other => panic!("unknown mode {other}"),
     }
